@@ -441,6 +441,105 @@ func totalOrderCmp(f *ssa.Function) bool {
 }
 
 // ---------------------------------------------------------------------------
+// C18.R6: a Go map value may be handed only to callees whose behaviour does not
+// depend on the map's iteration order.  A map passed to a dependency function
+// (directly or boxed in an interface) is an order leak the range scanner of R1
+// cannot see (e.g. maps.Keys(m) returns the keys in iteration order).
+
+var mapSafeCallees = map[string]string{
+	"builtin.len":    "size only",
+	"builtin.delete": "point update",
+	"builtin.clear":  "order-free",
+}
+
+// mapSafePrefix: dependency callees that enumerate a map in sorted key order or only look keys up.
+var mapSafePrefix = map[string]string{
+	"encoding/json.Marshal":           "encoding/json sorts map keys",
+	"fmt.":                            "fmt prints maps in sorted key order",
+	"(*encoding/json.Encoder).Encode": "encoding/json sorts map keys",
+	"encoding/json.Unmarshal":         "decoder fills the map; nothing is enumerated",
+	"(*encoding/json.Decoder).Decode": "decoder fills the map; nothing is enumerated",
+}
+
+func isMapType(t types.Type) bool {
+	if t == nil {
+		return false
+	}
+	if p, ok := t.Underlying().(*types.Pointer); ok {
+		t = p.Elem()
+	}
+	_, ok := t.Underlying().(*types.Map)
+	return ok
+}
+
+func scanMapEscapes(fns []*ssa.Function, inScope func(*ssa.Function) bool) (sites int, bad []finding, okf []finding) {
+	safe := func(name string) (string, bool) {
+		if why, ok := mapSafeCallees[name]; ok {
+			return why, true
+		}
+		for p, why := range mapSafePrefix {
+			if strings.HasPrefix(name, p) {
+				return why, true
+			}
+		}
+		return "", false
+	}
+	for _, fn := range fns {
+		for _, b := range fn.Blocks {
+			for _, in := range b.Instrs {
+				if mi, ok := in.(*ssa.MakeInterface); ok && isMapType(mi.X.Type()) {
+					sites++
+					// boxed map: every use must be an argument of an order-safe callee
+					for _, r := range *mi.Referrers() {
+						ci, isCall := r.(ssa.CallInstruction)
+						name := ""
+						if isCall {
+							name = staticName(ci.Common())
+						}
+						if why, ok := safe(name); isCall && ok {
+							okf = append(okf, finding{"mapescape", fn, r.Pos(), "boxed map -> " + name + " (" + why + ")"})
+						} else {
+							bad = append(bad, finding{"mapescape", fn, r.Pos(), "map value boxed into an interface and used by " + strings.TrimSpace(name+" "+r.String()) + ": iteration order may leak"})
+						}
+					}
+					continue
+				}
+				ci, ok := in.(ssa.CallInstruction)
+				if !ok {
+					continue
+				}
+				cc := ci.Common()
+				hasMap := false
+				for _, a := range cc.Args {
+					if isMapType(a.Type()) {
+						hasMap = true
+					}
+				}
+				if !hasMap {
+					continue
+				}
+				sites++
+				name := staticName(cc)
+				if why, ok := safe(name); ok {
+					okf = append(okf, finding{"mapescape", fn, in.Pos(), "map -> " + name + " (" + why + ")"})
+					continue
+				}
+				if tgt := cc.StaticCallee(); tgt != nil && tgt.Blocks != nil && inScope(tgt) {
+					// module function in the scanned scope: its own ranges are judged by R1
+					okf = append(okf, finding{"mapescape", fn, in.Pos(), "map -> " + name + " (module function, scanned by R1)"})
+					continue
+				}
+				if name == "" {
+					name = "dynamic callee " + cc.Value.String()
+				}
+				bad = append(bad, finding{"mapescape", fn, in.Pos(), "map value passed to " + name + " (not in the order-safe table): iteration order may leak"})
+			}
+		}
+	}
+	return
+}
+
+// ---------------------------------------------------------------------------
 
 func loadControl() ([]*ssa.Function, error) {
 	dir := filepath.Join(verifDir(), "checker")
@@ -577,6 +676,41 @@ func propC18(c *Ctx) {
 				if !kinds[k] {
 					oc.Fail("-", "control for '"+k+"' not detected", nil)
 				}
+			}
+		}
+	})
+
+	c.Rule("C18.R6", func() {
+		scope := map[*ssa.Function]bool{}
+		for _, f := range fns {
+			scope[f] = true
+		}
+		sites, bad, okf := scanMapEscapes(fns, func(f *ssa.Function) bool { return scope[f] })
+		o := c.Ob("C18.R6", "Go map values reach only order-insensitive callees (builtins, sorted encoders, module functions judged by R1) - never a dependency that enumerates them")
+		o.Sites = sites
+		for _, g := range okf {
+			o.Note(fnShort(g.fn) + ": " + g.msg + " @" + c.W.Pos(g.pos))
+		}
+		for _, b := range bad {
+			o.Fail(c.W.Pos(b.pos), b.msg+" in "+fnShort(b.fn), nil)
+		}
+		oc := c.Ob("C18.R6", "positive control: a map handed to maps.Keys-style dependency code and a boxed map are flagged in the control package")
+		if cerr != nil {
+			oc.Undecide("control package: " + cerr.Error())
+		} else {
+			_, cb, cok := scanMapEscapes(ctl, func(*ssa.Function) bool { return false })
+			oc.Sites = len(cb)
+			direct, boxed := false, false
+			for _, b := range cb {
+				if strings.Contains(b.msg, "passed to") {
+					direct = true
+				}
+				if strings.Contains(b.msg, "boxed") {
+					boxed = true
+				}
+			}
+			if !direct || !boxed || len(cok) == 0 {
+				oc.Fail("-", fmt.Sprintf("control: direct escape flagged=%v, boxed escape flagged=%v, safe uses accepted=%d", direct, boxed, len(cok)), nil)
 			}
 		}
 	})
